@@ -107,6 +107,11 @@ def count(shape):
     return sorted(d.sym for d in shape if not d.one)
 
 
+class _Conflict:
+    def __init__(self, name, a, b):
+        self.name, self.a, self.b = name, a, b
+
+
 class ShapeInterp:
     def __init__(self, prog, scenario, resolve_predict=None):
         self.prog = prog
@@ -170,7 +175,24 @@ class ShapeInterp:
                     self._block(fn, st.orelse, e2, ret, depth)
                     env.update(e1)
                     continue
-                raise Undecided("branch `%s`" % test)
+                # unknown condition: both branches, agreeing results are kept
+                e1, e2 = dict(env), dict(env)
+                r1, r2 = [None], [None]
+                self._block(fn, st.body, e1, r1, depth)
+                self._block(fn, st.orelse, e2, r2, depth)
+                for k in set(e1) | set(e2):
+                    v1, v2 = e1.get(k), e2.get(k)
+                    if v1 is None or v2 is None:
+                        env[k] = v1 if v1 is not None else v2
+                    elif repr(v1) == repr(v2) or not (isinstance(v1, Arr) and isinstance(v2, Arr)):
+                        env[k] = v1
+                    else:
+                        env[k] = v1 if count(v1.shape) == count(v2.shape) and len(v1.shape) == len(v2.shape) \
+                            else _Conflict(k, v1, v2)
+                if r1[0] is not None and r2[0] is not None:
+                    ret[0] = r1[0]
+                    return
+                continue
             elif isinstance(st, ast.Return):
                 ret[0] = self.ev(st.value, env, fn, depth) if st.value is not None else None
                 return
@@ -181,6 +203,8 @@ class ShapeInterp:
     def ev(self, e, env, fn, depth):
         if isinstance(e, ast.Name):
             if e.id in env:
+                if isinstance(env[e.id], _Conflict):
+                    raise Undecided("%s has shape %r or %r depending on a branch" % (e.id, env[e.id].a, env[e.id].b))
                 return env[e.id]
             raise Undecided("name %s" % e.id)
         if isinstance(e, ast.Constant):
